@@ -56,10 +56,16 @@ def gen_ra_range(rng):
 
 
 def enc(arr):
-    """value encoding of the model: bool -> 0/1, ints -> the integer, floats -> float64 bit pattern"""
+    """value encoding of the model: bool -> 0/1, ints -> the integer, floats -> an integer that is injective on the float64
+    bit patterns AND order preserving (positive floats: their bit pattern; negative floats: -(magnitude bits) - 1), so that
+    the model can check that an index field of float type (dec, sin_dec, time) is sorted"""
     arr = np.asarray(arr)
     if arr.dtype.kind == 'f':
-        return [int(v) for v in arr.astype(np.float64).view(np.uint64).tolist()]
+        out = []
+        for b in arr.astype(np.float64).view(np.uint64).tolist():
+            b = int(b)
+            out.append(b if b < (1 << 63) else -(b - (1 << 63)) - 1)
+        return out
     return [int(v) for v in arr.tolist()]
 
 
@@ -351,7 +357,7 @@ def scramblers_for(spec):
 
 def gen_spec(rng):
     lacks = rng.choice([[], [], [], ['run'], ['log_energy'], ['run', 'ang_err']])
-    index = rng.choice([None, 'run', 'run', 'time'])
+    index = rng.choice([None, 'run', 'run', 'time', 'dec', 'dec'])     # int16/int64 with ties, float time, float dec with negatives
     if index in lacks:
         index = 'time'
     n_exp = rng.choice([0, 0, 1, 2, 3, 5, 8, 13])
